@@ -51,12 +51,16 @@ def obligations(tier):
             progs=[Prog("qmail-local.c", main_as="local_main",
                         cut=["checkhome", "bouncexf", "qmesearch", "mailfile", "maildir", "mailprogram", "mailforward", "count_print"])],
             repo=MAIN_UNITS, lib=["ideal_substdio.c", "arena_stralloc.c"],
-            defines={"ARENA_CAP": 72, "ARENA_SLOTS": 12}, sysrename=["_exit", "umask", "chdir", "time", "strlen", "calloc"],
-            grid=[{"B": b} for b in (1, 2, 3, 4, 5, 6)],
+            defines={"ARENA_CAP": 48, "ARENA_SLOTS": 12}, sysrename=["_exit", "umask", "chdir", "time", "strlen", "calloc"],
+            grid=[{"B": b} for b in (1, 2, 3, 4, 5, 6, 7, 8)],
             unwind=lambda p: {"fmt_ulong": 6},
             unwind_default=lambda p: 40, backend="minisat", timeout=900,
             claim="loop",
-            expect_witnesses=lambda p: ["all_done"],
+            expect_witnesses=lambda p: ["all_done", "comments_only", "blank_first_line", "executable_refused",
+                                        "delivery_failure_prevents_forwarding", "forward_failure"]
+                + (["two_forwards", "mbox_and_forward", "program_then_maildir", "forward_before_99_honoured",
+                    "forward_after_99_ignored", "delivery_after_99_ignored"] if p["B"] >= 3 else [])
+                + (["pluslist_refused"] if p["B"] >= 7 else []),
             ),
         Obl("mailprogram_codes", "prog.c", progs=[Prog("qmail-local.c", nomain=True)],
             repo=["wait_pid.c", "error_str.c"], lib=["ideal_substdio.c"],
